@@ -738,13 +738,20 @@ def programs(draw, max_depth=3, modes=("node",), errors=True, ctxs=False, limits
         if k == "tuple":
             return ["tuple", [gen(vars_, depth - 1, "any") for _ in range(draw(st.integers(0, 2)))]]
         if k == "set":
+            def slit():
+                # 0..3 only: element values then stay within 0..6, which never collide in CPython's
+                # 8-slot set table, so the iteration order of the set does not depend on insertion
+                # order. (Colliding elements such as -3 and 5 make the pickle-based hash of any
+                # container holding the set history-dependent: C16's open finding, checked there.)
+                return ["lit", ["int", draw(st.integers(0, 3))]]
+
             def selem():
                 c = draw(st.integers(0, 2))
                 if c == 0:
-                    return lit_int(draw)
+                    return slit()
                 if c == 1:
-                    return ["task", lit_int(draw), {}, {}]
-                return ["op", "add", ["task", lit_int(draw), {}, {}], lit_int(draw)]
+                    return ["task", slit(), {}, {}]
+                return ["op", "add", ["task", slit(), {}, {}], slit()]
             return ["set", [selem() for _ in range(draw(st.integers(0, 3)))]]
         if k == "dict":
             keys = draw(st.lists(st.sampled_from(["k", "m", 1, 2]), max_size=2, unique=True))
